@@ -141,5 +141,5 @@ pub fn decode_history(data: &[u8]) -> HistoryCase {
             break;
         }
     }
-    HistoryCase { cfg, fresh_handles, txs }
+    HistoryCase { cfg, fresh_handles, txs, dance: 0 }
 }
